@@ -1,13 +1,15 @@
 """Property id -> check function."""
 import json
 
-from . import props_pool
+from . import props_pool, props_router
 
 CHECKS = {
     'C01': props_pool.check,
     'C02': props_pool.check,
     'C04': props_pool.check,
     'C10': props_pool.check,
+    'C05': props_router.check_c05,
+    'C13': props_router.check_c13,
 }
 
 
